@@ -155,31 +155,10 @@ Qed.
 Lemma forallb_ext {X} (f g : X -> bool) l : (forall x, f x = g x) -> forallb f l = forallb g l.
 Proof. intros H. apply forallb_ext_in. auto. Qed.
 
-(** the module table keeps its keys, in order; modules change only in their set of item paths *)
-Definition mods_rel (ms ms0 : list (path * smodule)) : Prop :=
-  Forall2 (fun km km0 => fst km = fst km0 /\ mod_eq (snd km) (snd km0)) ms ms0.
-
-Lemma mod_eq_refl m : mod_eq m m.
-Proof. repeat split. Qed.
-Lemma mod_eq_trans a b c : mod_eq a b -> mod_eq b c -> mod_eq a c.
-Proof. intros (A1 & B1 & C1 & D1) (A2 & B2 & C2 & D2). repeat split; congruence. Qed.
-
-Lemma mods_rel_refl ms : mods_rel ms ms.
-Proof. induction ms as [|km ms IH]; constructor; [split; [reflexivity | apply mod_eq_refl] | exact IH]. Qed.
-
 Lemma mods_rel_agree ms ms0 : mods_rel ms ms0 -> mods_agree ms ms0.
 Proof.
   induction 1 as [|[k m] [k0 m0] ms ms0 [Hk He] _ IH]; intros q; cbn [alookup]; [exact I|].
   cbn [fst snd] in *. subst k0. destruct (path_eqb q k); [exact He | apply IH].
-Qed.
-
-Lemma mods_rel_insert ms ms0 k m m' :
-  mods_rel ms ms0 -> alookup k ms = Some m -> mod_eq m' m -> mods_rel (ainsert k m' ms) ms0.
-Proof.
-  induction 1 as [|[k1 m1] [k0 m0] ms ms0 [Hk He] Hrest IH]; cbn [alookup ainsert]; [discriminate|].
-  cbn [fst snd] in *. subst k0. destruct (path_eqb_spec k k1) as [->|Hne]; intros Hl Hm.
-  - inversion Hl; subst m1. constructor; [|exact Hrest]. split; [reflexivity|]. eapply mod_eq_trans; eauto.
-  - constructor; [split; [reflexivity | exact He] | apply IH; assumption].
 Qed.
 
 Section Abs.
